@@ -293,12 +293,19 @@ func (r *Runner) ReplayEnc(b *Behaviour) {
 				return
 			}
 			pv := secretValue(f, 900000+tok) // the peer's own value: not a secret of the owner
-			lit := fmt.Sprint(pv)
-			if s, ok := pv.(string); ok {
-				lit = fmt.Sprintf("%q", s)
+			// through the collection API (Get, Set, Update): a GraphQL update finds no document on a peer that cannot
+			// read all of its fields
+			var werr error
+			if pcol, err := pn.DB.GetCollectionByName(ctx, "T"); err != nil {
+				werr = err
+			} else if pdoc, err := pcol.Get(ctx, doc.ID(), false); err != nil {
+				werr = err
+			} else if err := pdoc.Set(f, pv); err != nil {
+				werr = err
+			} else {
+				werr = pcol.Update(ctx, pdoc)
 			}
-			ures, err := pn.Exec(ctx, fmt.Sprintf(`mutation { update_T(docID: %q, input: {%s: %s}) { _docID } }`, doc.ID().String(), f, lit))
-			if err != nil || len(cluster.Rows(ures, "update_T")) == 0 {
+			if werr != nil {
 				// the peer cannot write the document: nothing to merge, the step is void
 				stopKms()
 				pn.Close()
